@@ -503,8 +503,8 @@ PROPS["C11"] = dict(
     quick=[
         R("sync", "plain", 8, 400, ["mode=serial"]),
         R("sync", "asan", 4, 60, ["mode=serial"]),
-        R("sync", "tsan", 4, 40, ["mode=jitter"], timeout=150),
-        R("sync", "asan", 2, 30, ["mode=jitter"], timeout=150),
+        R("sync", "tsan", 4, 40, ["mode=jitter"], timeout=300),
+        R("sync", "asan", 2, 30, ["mode=jitter"], timeout=300),
     ],
     thorough=[
         R("sync", "plain", 16, 4000, ["mode=serial"], timeout=7200),
@@ -537,8 +537,8 @@ PROPS["C10"] = dict(
     quick=[
         R("pool", "plain", 8, 150, ["mode=serial"]),
         R("pool", "asan", 4, 30, ["mode=serial"]),
-        R("pool", "tsan", 4, 20, ["mode=jitter"], timeout=150),
-        R("pool", "asan", 2, 20, ["mode=jitter"], timeout=150),
+        R("pool", "tsan", 4, 20, ["mode=jitter"], timeout=300),
+        R("pool", "asan", 2, 20, ["mode=jitter"], timeout=300),
     ],
     thorough=[
         R("pool", "plain", 16, 6000, ["mode=serial"], timeout=7200),
@@ -572,8 +572,8 @@ PROPS["C12"] = dict(
         R("cptr", "plain", 4, 600, ["mode=seq"]),
         R("cptr", "plain", 8, 120, ["mode=serial"]),
         R("cptr", "asan", 4, 30, ["mode=serial"]),
-        R("cptr", "tsan", 4, 20, ["mode=jitter"], timeout=150),
-        R("cptr", "asan", 2, 20, ["mode=jitter"], timeout=150),
+        R("cptr", "tsan", 4, 20, ["mode=jitter"], timeout=300),
+        R("cptr", "asan", 2, 20, ["mode=jitter"], timeout=300),
     ],
     thorough=[
         R("cptr", "asan", 16, 15000, ["mode=seq"], timeout=7200),
@@ -587,7 +587,9 @@ PROPS["C12"] = dict(
          "deleter: construction from raw pointers (also a second handle from the raw pointer of a managed object), "
          "make_counting, copy/move assignment (self, and between handles of the same object), copy/move construction, "
          "converting copies/moves from the derived handle, reset, member and free swap, unify on shared/unique/empty "
-         "handles, nullptr construction, comparisons. After every operation each handle's target, use_count()/unique()/"
+         "handles, nullptr construction, comparisons; plus one history over handles that live inside managed objects "
+         "(singly linked nodes: push_front, p = p->next, p = std::move(p->next), q = p->next, p->next = q without "
+         "closing a cycle, p->next.reset(), unlinking the second node by copy and by move). After every operation each handle's target, use_count()/unique()/"
          "valid()/empty(), reference_count() of every referenced object == number of handles pointing at it, and live "
          "objects == referenced objects (destroyed exactly when the last handle lets go; never with the no-delete "
          "deleter; deleter calls == destructions). mode=serial/jitter: a case = 60 concurrent histories of 2-3 threads x "
@@ -595,7 +597,8 @@ PROPS["C12"] = dict(
          "while the creator drops its handles; each object must die exactly once after the last handle of any thread is "
          "gone (controlled schedules with every reference-count operation as a scheduling point; TSan/ASan with "
          "jitter). Classes: deleter (seq), threads x objects (concurrent).",
-    require=dict(any=["seq_histories", "operations", "unify_shared", "concurrent_histories", "schedule_steps"]),
+    require=dict(any=["seq_histories", "operations", "unify_shared", "concurrent_histories", "schedule_steps",
+                      "list_histories", "list_pop_front_by_copy", "list_pop_front_by_move", "list_unlink"]),
     assumptions=[_SCHED_ASSUME, "after a move between two handles of the same object the source may be left either empty or "
                  "untouched: the monitor takes what it observes and requires the counts to add up", SAN_ASSUME],
 )
